@@ -41,12 +41,17 @@ type c04Case struct {
 	MaxF    uint32 `json:"max_forged,omitempty"`
 	Levels  int    `json:"levels,omitempty"`
 	StackMB int    `json:"max_stack_mb,omitempty"`
+	// Top / TopLayout: the kind and layout the generator emits by default for the outermost
+	// geometry (zero values: Point XY). Starting from another kind reaches deeper structures
+	// within the same deviation bound.
+	Top       ref.Kind    `json:"top_kind,omitempty"`
+	TopLayout geom.Layout `json:"top_layout,omitempty"`
 }
 
 func init() {
 	engine.Register(&engine.Check{
 		ID: "C04", Level: "model_checking",
-		Rule: "states = decision points of a reference WKB/EWKB reader model (byte order, type word, SRID, counts per level, coordinate blocks, truncation, trailing bytes); DFS over all field-choice sequences with <=3 (quick) / <=4 (thorough) non-default choices, <=14 fields, for WKB, WKB-NaN and EWKB under limit configurations {-1,2}^3 (quick) / {-1,0,2}^3 (thorough); every generated string is decoded by Unmarshal, hex Decode and Scan and compared with the model verdict OK(geometry)/TooLarge{level,n,limit}/Error; forged counts are tried in ascending magnitude with the heap-allocation delta measured around each decode; plus a role-blind sweep (every prefix, every byte x 5 values, every 4-byte word x count menu) of every corpus encoding under enabled limits, and a nesting-depth family in a sacrificial subprocess",
+		Rule:   "states = decision points of a reference WKB/EWKB reader model (byte order, type word, SRID, counts per level, coordinate blocks, truncation, trailing bytes); DFS over all field-choice sequences with <=3 (quick) / <=4 (thorough) non-default choices, <=14 fields, for WKB, WKB-NaN and EWKB under limit configurations {-1,2}^3 (quick) / {-1,0,2}^3 (thorough); every generated string is decoded by Unmarshal, hex Decode and Scan and compared with the model verdict OK(geometry)/TooLarge{level,n,limit}/Error; forged counts are tried in ascending magnitude with the heap-allocation delta measured around each decode; plus a role-blind sweep (every prefix, every byte x 5 values, every 4-byte word x count menu) of every corpus encoding under enabled limits, and a nesting-depth family in a sacrificial subprocess",
 		Run:    c04Run,
 		Replay: func(c *engine.Ctx, kind string, raw json.RawMessage) { c04Exec(c, decodeCase[c04Case](raw)) },
 		Assumptions: []string{
@@ -176,6 +181,11 @@ func (g *g04) typeMenu(defKind ref.Kind, ctxLayout geom.Layout) []typeOpt {
 	}
 	if g.ext {
 		out = append(out, mk(defKind, ctxLayout, true), mk(ref.Point, geom.XYZM, true))
+		for _, k := range kinds {
+			if k != defKind {
+				out = append(out, mk(k, ctxLayout, true)) // an SRID word on every kind, at every level
+			}
+		}
 		out = append(out,
 			typeOpt{word: 0x10000001, bad: "stray bit 28"}, typeOpt{word: 0x08000001, bad: "stray bit 27"},
 			typeOpt{word: 1001, bad: "ISO code in EWKB"})
@@ -435,7 +445,11 @@ func (g *g04) geometry(defKind ref.Kind, ctxLayout geom.Layout) (*ref.G, verdict
 
 func c04Generate(m *engine.MC, cs c04Case) ([]byte, *ref.G, verdict, bool) {
 	g := &g04{m: m, ext: cs.Ext, nan: cs.NaN, limits: cs.Limits, maxFields: 14, maxForged: cs.MaxF}
-	model, v := g.geometry(ref.Point, geom.XY)
+	top, topLayout := ref.Point, geom.XY
+	if cs.TopLayout != geom.NoLayout {
+		top, topLayout = cs.Top, cs.TopLayout
+	}
+	model, v := g.geometry(top, topLayout)
 	if v.kind == vOK {
 		// trailing bytes after a complete geometry are ignored by Unmarshal
 		if m.Choose(2, "trailing") == 1 {
@@ -814,22 +828,32 @@ func c04Run(c *engine.Ctx) {
 				continue // forged-count strings are explored by the worker processes below
 			}
 			// no forged counts: parallel over the first-level subtrees
+			type start struct {
+				k ref.Kind
+				l geom.Layout
+			}
+			starts := []start{{}}
+			if cfg == [4]int{0, -1, -1, -1} || cfg == [4]int{0, 2, 2, 2} {
+				starts = append(starts, start{ref.Collection, geom.XY}, start{ref.MultiPolygon, geom.XYZ}, start{ref.Collection, geom.XYZM}, start{ref.MultiLineString, geom.XYM})
+			}
 			for _, f := range formats {
-				cs := c04Case{Mode: "model", Ext: f.Ext, NaN: f.NaN, Limits: cfg, MaxF: maxF}
-				st := engine.ExploreParallel(c, bound, func(m *engine.MC) {
-					b, model, v, _ := c04Generate(m, cs)
-					c.Count("evaluations", 1)
-					c.Count("transitions", int64(len(m.Trace)))
-					cc := cs
-					cc.Choices = m.Choices()
-					c04Check(c, cc, b, model, v, false)
-					if m.Deviations() == bound {
-						c.Sample("model/"+c04Name(cs), 2, map[string]any{"limits": cs.Limits, "input": hex.EncodeToString(b), "verdict": verdictStr(v, model), "choices": cc.Choices})
+				for _, st0 := range starts {
+					cs := c04Case{Mode: "model", Ext: f.Ext, NaN: f.NaN, Limits: cfg, MaxF: maxF, Top: st0.k, TopLayout: st0.l}
+					st := engine.ExploreParallel(c, bound, func(m *engine.MC) {
+						b, model, v, _ := c04Generate(m, cs)
+						c.Count("evaluations", 1)
+						c.Count("transitions", int64(len(m.Trace)))
+						cc := cs
+						cc.Choices = m.Choices()
+						c04Check(c, cc, b, model, v, false)
+						if m.Deviations() == bound {
+							c.Sample("model/"+c04Name(cs), 2, map[string]any{"limits": cs.Limits, "input": hex.EncodeToString(b), "verdict": verdictStr(v, model), "choices": cc.Choices})
+						}
+					})
+					c.Count("schedules", st.Executions)
+					if st.Capped {
+						c.SetCapped("model exploration interrupted by the deadline")
 					}
-				})
-				c.Count("schedules", st.Executions)
-				if st.Capped {
-					c.SetCapped("model exploration interrupted by the deadline")
 				}
 			}
 		}
